@@ -344,6 +344,9 @@ func (ex *Ex) perform(a action) {
 			ex.holds[t] = n - 1
 		}
 	}
+	if debugSched != nil {
+		debugSched(ex, a)
+	}
 	if a.task != nil {
 		ex.cur = a.task
 		ex.sc.Run(a.task)
@@ -784,10 +787,8 @@ func (ex *Ex) advance(ms int) {
 			break
 		}
 		next := target
-		// next ticker boundary (tickers were created at ex.start, period 1 s)
-		el := now.Sub(ex.start)
-		nb := ex.start.Add((el/time.Second + 1) * time.Second)
-		if nb.Before(next) {
+		// next tick of a simulated ticker
+		if nb := ex.sc.NextTick(); !nb.IsZero() && nb.Before(next) {
 			next = nb
 		}
 		for _, c := range ex.Conns {
@@ -799,9 +800,23 @@ func (ex *Ex) advance(ms int) {
 				next = dl
 			}
 		}
-		time.Sleep(next.Sub(now))
+		if next.After(now) {
+			time.Sleep(next.Sub(now))
+		}
 		ex.Stats.Faults["time.advance"]++
 		ex.H.add(&Ev{Kind: "tick", Conn: -1, N: int64(next.Sub(now) / time.Millisecond)})
+		synctest.Wait()
+		// deliver the ticks that are due, one at a time, in a simulator-chosen order
+		due := ex.sc.DueTickers(time.Now())
+		for len(due) > 0 {
+			k := 0
+			if ex.Plan.Cfg.SelOrder && len(due) > 1 {
+				k = ex.draw("order.ticker", len(due))
+			}
+			due[k].Fire(time.Now())
+			due = append(due[:k], due[k+1:]...)
+			synctest.Wait()
+		}
 		if !ex.drive() {
 			return
 		}
